@@ -25,7 +25,8 @@ from vlib import defgen as G
 from vlib.common import HarnessError, Result, RunContext, Violation, conclude, derive_seed, hyp_run, run_shards
 
 RULE = ("(a) Hypothesis draws conflict-free definition closures (1-6 files, 1-3 directories; import graph shape from chain / tree / diamond / "
-        "random DAG / repeated import line / same file under ./x, ../d/x spellings / import cycle / self import; constants, string constants, "
+        "random DAG / repeated import line / same file under ./x, ../d/x spellings / import cycle / self import / the same relative spelling "
+        "(x.yaml, ./x.yaml, ../lib/x.yaml, or data_logger.yaml as in the core definitions) denoting DIFFERENT files of different directories; constants, string constants, "
         "aliases, host and module ids, structs, messages, signals, _RESERVED_ ids as ints, 'A - B', 'A-B', 'A to B'); the real parser must accept "
         "them, read each file once and register exactly the union (names, values, ids) predicted by the generator's model. "
         "(b) one conflict is injected into such a closure: message id shared by message/signal/reserved in every combination or with a core "
@@ -131,7 +132,7 @@ def check_free(p: G.Program, res: Result = None, out=None, trace=None):
 
 
 GRAPH_CLASSES = {"single", "chain", "tree", "diamond", "dag", "repeat", "respell", "cycle", "self-import", "multi-path", "multi-dir",
-                 "root-in-subdir"}
+                 "root-in-subdir", "twins", "twins/plain", "twins/dot", "twins/dotdot", "twins/core-shadow"}
 
 
 # ----------------------------------------------------------------------------------------------
@@ -215,6 +216,49 @@ def run_table(idx: int, nshards: int, res: Result, seed: int = 0, full: bool = T
                 check_conflict(q, res)
             except Violation as v:
                 res.add_finding(v.key, v.what, v.trace)
+
+
+# ----------------------------------------------------------------------------------------------
+# the same relative import spelling denoting different files
+
+
+def twin_bases():
+    bases = []
+    for want, core in (("twins/plain", False), ("twins/dot", False), ("twins/dotdot", False), ("twins/core-shadow", True)):
+        for k in range(400):
+            b = G.random_program(7000 + k, shape="twins", min_files=6, max_files=6, import_coredefs=core, allow=ALLOW)
+            if want in b.classes:
+                bases.append(b)
+                break
+        else:
+            raise HarnessError(f"no base closure of class {want}")
+    return bases
+
+
+def twin_table(res: Result):
+    """Closures in which x.yaml / ./x.yaml / ../lib/x.yaml (or data_logger.yaml next to the user's root, as in the core definitions)
+    is written identically in two files but denotes two different files: each is accepted with every file read once, and a conflict
+    located in either twin file (both items there, or one item in each twin) is reported."""
+    kinds = ["msgid/msg-msg", "msgid/signal-reserved", "name/constant-message", "name/struct-alias", "modid/dup", "hostid/dup", "range/msgid-high"]
+    for b in twin_bases():
+        res.evaluations += 1
+        try:
+            check_free(b, res)
+        except Violation as v:
+            res.add_finding(v.key, v.what, v.trace)
+        pairs = [(t, t) for t in b.twin_files] + [(b.twin_files[0], b.twin_files[1]), (b.twin_files[1], b.twin_files[0])]
+        for i, kind in enumerate(kinds):
+            for fa, fb in pairs:
+                if kind.startswith("range") and fa != fb:
+                    continue
+                q = G.inject_conflict(b, kind, "same" if fa == fb else "cousins", G.RandomChooser(i), files=(fa, fb))
+                q.options["import_coredefs"] = b.import_coredefs or kind in G.NEEDS_CORE
+                res.evaluations += 1
+                res.count("twin-table-cases")
+                try:
+                    check_conflict(q, res)
+                except Violation as v:
+                    res.add_finding("twins/" + v.key, v.what, v.trace)
 
 
 # ----------------------------------------------------------------------------------------------
@@ -383,6 +427,8 @@ def shard(idx: int, nshards: int, seed: int, n_free: int, n_conf: int, n_cli: in
                 seed + 10 * k + 1, max(1, n_conf * share // 4), res)
     if idx == 2:
         history_table(res)
+    if idx == 3:
+        twin_table(res)
     for k, core in enumerate((False, True)):
         sb = G.ShrinkBudget(15)
         hyp_run(sb.body(lambda st_: check_history(st_, res)), sb.wrap(histories(core)), seed + 20 + k, max(1, n_hist * (1 if core else 4) // 5), res)
